@@ -12,6 +12,7 @@ structure St where
   items : List Item := []     -- reversed
   xws : List (Option XW) := [] -- reversed; wire attributes of the non-CONNECT items
   replay : List Bool := []     -- reversed; can `http.Transport` replay the request (bodiless and idempotent)?
+  flags : List String := []    -- reversed; the context flags after the request modifier's calls
   oom : Bool := false          -- the case has an item outside the model's domain (answer `out-of-model`)
   bad : Bool := false
 
@@ -198,6 +199,17 @@ def applyDrops (items : List Item) (replay : List Bool) (dropped : List Nat) : L
 
 def numWrites (evs : List Ev) : Nat := countP (fun e => match e with | .write .. => true | _ => false) evs
 
+/-- The context flags after the scripted calls of the request modifier (`rq=skip|errskip` calls
+`SkipRoundTrip`; `api=` lists further calls in order). -/
+def flagsOf (toks : List String) : String :=
+  let rq := (kv toks "rq").getD "pass"
+  let api := ((kv toks "api").getD "").splitOn ","
+  let cs : List CtxCall := (if rq == "skip" || rq == "errskip" then [.skipRoundTrip] else []) ++
+    api.filterMap fun a => match a with
+      | "skiprt" => some .skipRoundTrip | "skiplog" => some .skipLogging | "apireq" => some .apiRequest | _ => none
+  let f := ({} : Flags).calls cs
+  s!"{b f.skipRoundTrip}{b f.skipLogging}{b f.apiRequest}"
+
 def isStrictlyIncreasing : List Nat → Bool
   | a :: b :: r => a < b && isStrictlyIncreasing (b :: r)
   | _ => true
@@ -219,10 +231,11 @@ def finish (s : St) (dropped : List Nat) : String :=
   let xws := s.xws.reverse.toArray
   let its := items.toArray
   let sts := (statesOf s.shutdown s0 0 items).toArray
+  let fls := s.flags.reverse.toArray
   let per := (List.range items.length).map fun i =>
     let sv := match (sts[i]?).join with | some st => toString st.stored | none => "-"
     let line := summaryAt (its[i]?) ((xws[i]?).join) (ps[i]?.getD []) i
-    if line.endsWith "unserved" then line else line ++ s!",sv={sv}"
+    if line.endsWith "unserved" then line else line ++ s!",sv={sv},fl={(fls[i]?).getD ""}"
   let left := (links evs).filter (fun c => !(unlinks evs).contains c)
   " | ".intercalate per ++ s!" | open={b (!s.quiet && stillOpen s0 s.shutdown items)} ctxleft={left.length} distinct={b (links evs).Nodup}"
 
@@ -255,8 +268,11 @@ def step (s : St) (toks : List String) : St × String :=
       let rp := (["GET", "HEAD", "OPTIONS", "TRACE"].contains ((kv toks "m").getD "GET")) && (kv toks "rb").getD "0" == "0"
       -- a downstream proxy's own answer to a CONNECT (anything but "tunnel established" / "unreachable") is
       -- outside the model: the oracle alone judges such cases
-      let oom := s.oom || ((kv toks "dsr").isSome && !["200", "refuse", "close", "trunc", "garbage"].contains ((kv toks "dsr").getD "200"))
-      ({ s with items := it :: s.items, xws := xw :: s.xws, replay := rp :: s.replay, oom := oom }, "queued")
+      -- so is a request that names no host at all (origin-form target without a usable Host header): the
+      -- round trip fails without any upstream contact
+      let nohost := ["nohost10", "emptyhost"].contains ((kv toks "xr").getD "") && (kv toks "tf").getD "origin" == "origin"
+      let oom := s.oom || nohost || ((kv toks "dsr").isSome && !["200", "refuse", "close", "trunc", "garbage"].contains ((kv toks "dsr").getD "200"))
+      ({ s with items := it :: s.items, xws := xw :: s.xws, replay := rp :: s.replay, flags := flagsOf toks :: s.flags, oom := oom }, "queued")
     | none => ({ s with bad := true }, "bad-op")
 
 end Martian.Drv.Proxy
